@@ -269,9 +269,18 @@ def Mon.step (m : Mon) (w : World) (l : Label) (w' : World) : Mon × List Vio :=
     else ({ m with ended := m.ended ++ [(b, e)] },
           v "C01" "spuriousRecursionTrip" [] s!"bus {b}: the recursion guard raised for event {e} although none of its handlers recurs in the event's ancestry; no handler of the accepted event runs")
   | .peAbort p b e =>
-    (match p with
-     | .rl _ => ({ m with dropped := m.dropped ++ [(b, e)], ended := m.ended ++ [(b, e)] }, [])   -- run loop cancelled by stop()
-     | _ => ({ m with aborted := m.aborted ++ [(b, e)], ended := m.ended ++ [(b, e)] }, []))
+    -- C11: processing is abandoned only because its executor is being cancelled (a stop(), a cancelled run-loop task, a
+    -- timeout further up). Abandoned without that, an exception of a handler has escaped process_event: the remaining
+    -- handlers of the event do not run and, for a run loop, the bus stops processing (silent on a conforming history,
+    -- whose guard demands the cancellation)
+    let cancelled := match p with | .inst i => cancelDueAll w i | .rl b' => (w.bus b').cancelReq | .ext => false
+    let vs := if cancelled then [] else
+      v "C11" "errorAbortsProcessing" [] s!"bus {b}: processing of event {e} was abandoned although nobody cancelled its executor: a handler's exception escaped"
+    -- (only a genuine cancellation files the activation under the recorded mechanisms stop-drop / F5)
+    (match p, cancelled with
+     | .rl _, true => ({ m with dropped := m.dropped ++ [(b, e)], ended := m.ended ++ [(b, e)] }, vs)   -- run loop cancelled by stop()
+     | _, true => ({ m with aborted := m.aborted ++ [(b, e)], ended := m.ended ++ [(b, e)] }, vs)
+     | _, false => ({ m with ended := m.ended ++ [(b, e)] }, vs))
   | .peBegin p b e =>
     -- position, in the bus's enqueue order, of the occurrence of `e` whose processing begins now
     let k := (m.begun.filter (· == (b, e))).length
